@@ -13,6 +13,18 @@ CLAIMS = {
              "operator depth <=2, integer-valued numerics with NaN; strings/categoricals/datetimes, quantile-based planning, disk/p2p shuffles outside.",
         design="§4 C01",
     ),
+    "C02": dict(
+        category="translation_validation", engine="P",
+        technique="symbolic execution of the real optimised plan over every partition layout vs the same program on the unpartitioned symbolic table; z3 decides equality for all cell and index values",
+        text="For each operator family of the statement and every cut of the rows into partitions (all compositions, empty partitions, known divisions with symbolic index labels, "
+             "unknown divisions, independent layouts of the two inputs) the real optimised task graph is executed symbolically and proved equal to the reference semantics "
+             "(the program applied to the whole symbolic table), or to refuse explicitly; the reference semantics is validated against real pandas per program, counterexamples are "
+             "replayed against real pandas and real compute.",
+        note="Trusted: symdf's pandas model (validated differentially). Bounds: 4 (quick) / 5 (thorough) rows, 3 rows for the second input. Outside: UDF groupby, rolling, merge_asof, "
+             "resample, quantile-based sort/set_index, non-numeric dtypes, float rounding. One listed known finding (frame cumulative ops with an all-NaN partition column) is "
+             "assumed away in the main obligation and re-observed separately.",
+        design="§4 C02",
+    ),
     "C03": dict(
         category="translation_validation", engine="P+SMT",
         technique="propositional z3 equivalence of the real predicate rewriter's input/output trees; z3 equivalence of real optimised vs unoptimised plans with a filter above every crossable operator",
